@@ -224,6 +224,21 @@ def plan(tier: str, seed: int) -> list[dict[str, Any]]:
         for a in [(5,), (2, 8), (8, 2, -2), (0, 5, 2), (3, 3), (1, 10, 3), (5, 0, -1)]:
             if d is not None and np.dtype(d).kind in "iuf":
                 cases.append({"k": "create", "fn": "arange", "args": list(a), "d": d})
+        # ... and the whole space of small argument triples (empty ranges, steps pointing
+        # away from stop, negative bounds), not only the hand-picked ones above
+        if d is not None and np.dtype(d).kind in "iuf":
+            space = [(a0,) for a0 in range(-3, 6)] + \
+                [(a0, a1) for a0 in range(-4, 6) for a1 in range(-4, 6)] + \
+                [(a0, a1, st) for a0 in range(-4, 6) for a1 in range(-4, 6)
+                 for st in (-3, -2, -1, 1, 2, 3)]
+            for a in (space if thorough else rng.sample(space, 120)):
+                cases.append({"k": "create", "fn": "arange", "args": list(a), "d": d})
+            for n_ in range(0, 4):
+                for m_ in (None, 0, 1, 2, 3):
+                    for kk in range(-3, 4):
+                        if thorough or rng.random() < 0.3:
+                            cases.append({"k": "create", "fn": "eye", "N": n_, "M": m_,
+                                          "kk": kk, "d": d})
     for shp, to in [((3,), (2, 3)), ((2, 3), (3,)), ((1, 3), (4, 3)), ((2, 3), (2, 4)),
                     ((), (2, 2)), ((3, 1), (3, 0)), ((3,), (3, 3)), ((2,), (3,))]:
         cases.append({"k": "broadcast_to", "shape": list(shp), "to": list(to)})
